@@ -343,7 +343,9 @@ def _doc(variant, unit=True, concrete_quats=None):
             Elem('body', pose('both'), [Elem('joint', {}), Elem('geom', pose('pos'), name=prefix + 'cg')], name=prefix + 'jointed')]
   sibs = [Elem('body', pose('quat'), small('sq_'), name='S1'), Elem('body', pose('pos'), small('sp_'), name='S2'),
           Elem('body', pose('none'), small('sn_'), name='S3')]
-  anchor = Elem('body', pose('both'), [Elem('joint', {}), Elem('geom', pose('pos'), name='anchor_geom'), outer] + sibs, name='B')
+  # a <frame> (legal MJCF since MuJoCo 3.1: pure syntax for a local pose) holding a jointless body
+  framed = Elem('frame', pose('both'), [Elem('body', pose(k1), small('fr_'), name='F1'), Elem('geom', pose('pos'), name='fr_direct')])
+  anchor = Elem('body', pose('both'), [Elem('joint', {}), Elem('geom', pose('pos'), name='anchor_geom'), outer] + sibs + [framed], name='B')
   top = Elem('body', pose(k1), leaves('top_'), name='J0')           # a jointless body directly under the world
   world = Elem('worldbody', {}, [anchor, top])
   return Elem('mujoco', {}, [world])
@@ -425,6 +427,9 @@ def geometry_preserved(U, rep, tier, rule='R13.4', nonunit=True):
                 walk(c, c.attrib['name'], [])
               else:
                 walk(c, anchor, chain + [fr])
+            elif c.tag == 'frame':
+              # <frame>: pure syntax for a local pose, may hold bodies and geoms
+              walk(c, anchor, chain + [(_vals(c, 'pos', (0, 0, 0)), _vals(c, 'quat', (1, 0, 0, 0)))])
             elif c.tag in ('geom', 'site') and 'name' in c.attrib:
               if 'fromto' in c.attrib:
                 ft = _vals(c, 'fromto', ())
@@ -436,20 +441,22 @@ def geometry_preserved(U, rep, tier, rule='R13.4', nonunit=True):
         # after fusing: every leaf hangs directly under its anchor with the composed pose
         got = {}
 
-        def walk2(e, anchor):
+        def walk2(e, anchor, frames=()):
           for c in list(e):
             if c.tag == 'worldbody':
               walk2(c, 'world')
             elif c.tag == 'body':
               jointed = c.find('joint') is not None or c.find('freejoint') is not None
               if jointed:
-                got[c.attrib['name']] = (anchor, c)
+                got[c.attrib['name']] = (anchor, c, list(frames))
                 walk2(c, c.attrib['name'])
               else:
-                got['<jointless %s>' % c.attrib.get('name')] = (anchor, c)
-                walk2(c, anchor)
+                got['<jointless %s>' % c.attrib.get('name')] = (anchor, c, list(frames))
+                walk2(c, anchor, frames)
+            elif c.tag == 'frame':
+              walk2(c, anchor, tuple(frames) + ((_vals(c, 'pos', (0, 0, 0)), _vals(c, 'quat', (1, 0, 0, 0))),))
             elif c.tag in ('geom', 'site') and 'name' in c.attrib:
-              got[c.attrib['name']] = (anchor, c)
+              got[c.attrib['name']] = (anchor, c, list(frames))
         walk2(root, 'world')
         left = [k for k in got if k.startswith('<jointless')]
         if left:
@@ -459,18 +466,20 @@ def geometry_preserved(U, rep, tier, rule='R13.4', nonunit=True):
           if name not in got or got[name][0] != anchor:
             bad = '`%s` is no longer attached to `%s`' % (name, anchor)
             break
-          e = got[name][1]
+          e, frs = got[name][1], got[name][2]
+          ident = asarr([Rat.lift(1), Rat.lift(0), Rat.lift(0), Rat.lift(0)])
           if fromto is not None:
             ft = _vals(e, 'fromto', ())
             for k_, pt in enumerate(fromto):
-              wp, _ = _mj_compose(chain + [(pt, asarr([Rat.lift(1), Rat.lift(0), Rat.lift(0), Rat.lift(0)]))])
-              if not avn.same(ft[3 * k_:3 * k_ + 3], wp):
+              wp, _ = _mj_compose(chain + [(pt, ident)])
+              gp_, _ = _mj_compose(frs + [(ft[3 * k_:3 * k_ + 3], ident)])
+              if not avn.same(gp_, wp):
                 bad = 'from-to geom `%s`: end point %d moves' % (name, k_)
             if 'pos' in e.attrib or (bad is None and False):
               pass
           else:
             wp, wq = _mj_compose(chain)
-            gp, gq = _vals(e, 'pos', (0, 0, 0)), _vals(e, 'quat', (1, 0, 0, 0))
+            gp, gq = _mj_compose(frs + [(_vals(e, 'pos', (0, 0, 0)), _vals(e, 'quat', (1, 0, 0, 0)))])
             if not avn.same(gp, wp):
               bad = '`%s` (%s) moves: its position relative to `%s` changes' % (name, e.tag, anchor)
             elif not _parallel(gq, wq):
